@@ -517,7 +517,8 @@ Fixpoint run (st : state) (ops : list op) : option state :=
 Inductive in_status := In_mempool | In_mempool_badn | In_utxo (h : Z) (cb : bool) | In_missing.
 (* one entry: id, vin with the status of each input, nout is not dumped; fee, size, spendsCoinbase, version/locktime *)
 Record dentry := { d_id : Z; d_vin : list (outpoint * Z * in_status); d_fee : Z; d_size : Z; d_cb : bool;
-                   d_version : Z; d_locktime : Z; d_anc : list Z }.
+                   d_version : Z; d_locktime : Z; d_anc : list Z;
+                   d_bip68 : bool   (* a fresh CalculateLockPointsAtTip + CheckSequenceLocksAtTip on (CoinsTip + pool) succeeds *) }.
 Record dump := { dm_height : Z; dm_mtp : Z; dm_entries : list dentry; dm_next : list (outpoint * Z);
                  dm_total_size : Z; dm_total_fee : Z }.
 
@@ -527,12 +528,13 @@ Definition d_ltx (d : dentry) : ltx :=
 
 Inductive violation :=
 | V_dup_txid | V_double_spend | V_index_missing | V_index_extra | V_input_unavailable | V_totals | V_nonfinal | V_immature
-| V_links.
+| V_links | V_nonbip68.
 
 (* (1) distinct txids; (2) no outpoint spent twice (by two entries or twice by one); (3) mapNextTx = exactly the inputs, each
    mapped to its spender; (4) every input is an unspent coin of the tip or an output of another entry; (5) totals;
    (6) every entry final for the next block; (7) every coinbase spend mature for the next block; (8) the recorded
-   ancestor sets are the ancestor closure of "spends an output of". *)
+   ancestor sets are the ancestor closure of "spends an output of"; (9) every entry is BIP68-final for the next block by a
+   fresh evaluation. *)
 Definition all_spends (d : dump) : list (outpoint * Z) :=
   flat_map (fun e => map (fun o => (o, d_id e)) (d_ins e)) (dm_entries d).
 Definition pair_in (x : outpoint * Z) (l : list (outpoint * Z)) : bool :=
@@ -558,9 +560,19 @@ Definition check_dump (d : dump) : option violation :=
   else if negb (forallb (fun e => same_set (d_anc e)
                                     (close (S (length (dm_entries d))) (d_parents_id d) (nodupz (d_parents d e)))) (dm_entries d))
        then Some V_links
+  else if negb (forallb d_bip68 (dm_entries d)) then Some V_nonbip68
   else None.
 
 (* the dump of a model state *)
+(* CalculateLockPointsAtTip(tip, CCoinsViewMemPool(CoinsTip, pool), tx) and CheckSequenceLocksAtTip, from scratch *)
+Definition fresh_bip68 (p : pool) (c : chain) (t : tx) : bool :=
+  match view_coins p c (t_ins t) with
+  | None => false
+  | Some coins => match calc_lock_points c coins t with
+                  | None => false
+                  | Some lp => check_seq_locks c lp
+                  end
+  end.
 Definition status_of (p : pool) (c : chain) (o : outpoint) : in_status :=
   match find_entry p (fst o) with
   | Some e => if (0 <=? snd o) && (snd o <? t_nout (e_tx e)) then In_mempool else In_mempool_badn
@@ -570,7 +582,7 @@ Definition dentry_of (p : pool) (c : chain) (e : entry) : dentry :=
   let t := e_tx e in
   {| d_id := t_id t; d_vin := map (fun x => (fst x, snd x, status_of p c (fst x))) (t_vin t);
      d_fee := t_fee t; d_size := t_size t; d_cb := e_cb e; d_version := t_version t; d_locktime := t_locktime t;
-     d_anc := ancestors_of_tx p t |}.
+     d_anc := ancestors_of_tx p t; d_bip68 := fresh_bip68 p c t |}.
 Definition dump_of (st : state) : dump :=
   {| dm_height := height (s_chain st); dm_mtp := mtp_tip (s_chain st);
      dm_entries := map (dentry_of (s_pool st) (s_chain st)) (p_entries (s_pool st));
